@@ -3,7 +3,8 @@
 
 usage: child.py SCHEDULE.json [any further words ...]
 schedule: {"chunks": [[delay_s, text], ...], "stdout": [[index_of_chunk_before_which, text], ...], "status": n, "linger": s,
-           "close_err": bool (close standard error after the last write, before lingering)}
+           "close_err": bool (close standard error after the last write, before lingering),
+           "enc": encoding of the chunk texts ("latin-1": every character is one byte - streams that are not valid UTF-8)}
 Reports its own argument vector and WAYLAND_DEBUG on stdout (marked), writes the chunks to stderr, exits with the status.
 """
 import json, os, sys, time
@@ -19,7 +20,7 @@ for i, (delay, text) in enumerate(s['chunks']):
         sys.stdout.flush()
     if delay:
         time.sleep(delay)
-    os.write(2, text.encode('utf-8'))
+    os.write(2, text.encode(s.get('enc', 'utf-8')))
 for t in marks.get(len(s['chunks']), []):
     sys.stdout.write('CHILD-STDOUT ' + t + '\n')
     sys.stdout.flush()
